@@ -436,14 +436,21 @@ func longQuery(rng *rand.Rand) string {
 	}
 }
 
-func slowQuery(rng *rand.Rand) string {
+// slowQuery returns a query that runs for seconds when nothing stops it. With
+// bounded=true it is finite: the cgo driver's cancellation is racy (an interrupt
+// that lands before sqlite3_step starts is lost and the driver then waits for the
+// statement to finish), so a cancelled *infinite* query could hang the check.
+func slowQuery(rng *rand.Rand, bounded bool) string {
+	if !bounded {
+		return "WITH RECURSIVE c(x) AS (SELECT 1 UNION ALL SELECT x+1 FROM c) SELECT COUNT(*) FROM c"
+	}
 	switch rng.Intn(3) {
 	case 0:
-		return "WITH RECURSIVE c(x) AS (SELECT 1 UNION ALL SELECT x+1 FROM c) SELECT COUNT(*) FROM c"
+		return fmt.Sprintf("WITH RECURSIVE c(x) AS (SELECT 1 UNION ALL SELECT x+1 FROM c LIMIT %d) SELECT COUNT(*) FROM c", 3000000+rng.Intn(3000000))
 	case 1:
-		return "SELECT COUNT(*) FROM trace a, trace b, trace c, trace d WHERE a.What < b.What AND c.Kind <> d.Kind"
+		return "SELECT COUNT(*) FROM trace a, trace b WHERE a.What < b.What AND a.Kind <> b.Kind"
 	default:
-		return "WITH RECURSIVE c(x) AS (SELECT 1 UNION ALL SELECT x+1 FROM c) SELECT x FROM c WHERE x < 0"
+		return fmt.Sprintf("WITH RECURSIVE c(x) AS (SELECT 1 UNION ALL SELECT x+1 FROM c LIMIT %d) SELECT x FROM c WHERE x < 0", 3000000+rng.Intn(3000000))
 	}
 }
 
@@ -508,12 +515,11 @@ func genQuery(rng *rand.Rand, nTasks int, allowTimeout *int) query {
 	case x < 88:
 		return query{Class: "long", SQL: longQuery(rng)}
 	default:
-		q = query{Class: "cancel", SQL: slowQuery(rng), CtxMs: 1 + rng.Intn(60)}
 		if *allowTimeout > 0 && rng.Intn(8) == 0 {
 			*allowTimeout--
-			q.Class, q.CtxMs = "timeout", 0
+			return query{Class: "timeout", SQL: slowQuery(rng, false)}
 		}
-		return q
+		return query{Class: "cancel", SQL: slowQuery(rng, true), CtxMs: 1 + rng.Intn(60)}
 	}
 	if rng.Intn(3) == 0 {
 		q.SQL = mutate(rng, q.SQL)
@@ -699,10 +705,13 @@ func run(b kit.Batch, r *kit.R) {
 				c.Failf(key, "result body is %d bytes (cap %d, %d rows, first line %d bytes) for %s query %s",
 					len(body), verifshim.DataQueryByteCap, n, len(header), q.Class, clipS(q.SQL, 200))
 			}
-			if !strings.ContainsAny(q.SQL, "\n\r") && !strings.Contains(strings.ToLower(q.SQL), "char(") {
-				if lines := strings.Count(body, "\n"); lines != n+1 {
-					c.Failf("c37/summary-disagrees-with-body", "summary says %d rows, body has %d lines: %s", n, lines, clipS(q.SQL, 300))
-				}
+			// header + one line per row; cells and column names may legitimately hold
+			// newlines (sqlite_master.sql does), so equality is only demanded without them
+			lq := strings.ToLower(q.SQL)
+			lines := strings.Count(body, "\n")
+			exact := !strings.ContainsAny(q.SQL, "\n\r") && !strings.Contains(lq, "char(") && !strings.Contains(lq, "sqlite_master") && !strings.Contains(lq, "source")
+			if lines < n+1 || (exact && lines != n+1) {
+				c.Failf("c37/summary-disagrees-with-body", "summary says %d rows, body has %d lines: %s", n, lines, clipS(q.SQL, 300))
 			}
 			if q.Write && strings.Contains(strings.ToUpper(q.SQL), "RETURNING") && n > 0 && q.Class == "cte_write" {
 				r.Count("write_statement_returned_rows", 1) // decided by the snapshot below
